@@ -74,6 +74,11 @@ pub enum Family {
     /// length, 2 number of vertex attributes, 3 number of constants and overrides, 4 kilobytes of
     /// comments, 5 block nesting depth inside one function, 6 switch cases / loops with calls.
     Shapes { shape: u8, n: u32 },
+    /// Programs that are REJECTED, at size: 0 hundreds of bindings but no group 0, 1 hundreds of
+    /// bindings and one duplicate at the very end, 2 a large valid program with a syntax error in
+    /// its last line, 3 a large program with a type error in its last function (validation).
+    /// Deciding "no" and building the diagnostic must stay as cheap as saying "yes".
+    Rejected { kind: u8, n: u32 },
     /// Small programs with huge NUMBERS in them: binding and group indices near u32::MAX, array
     /// lengths in the hundreds of millions, large workgroup sizes and override ids. Cost must
     /// follow the size of the text, not the magnitude of its literals.
@@ -89,6 +94,10 @@ impl Family {
             Family::Diamond { ptr_args: true, .. } => "diamond_ptr_args",
             Family::KernelLib { .. } => "kernel_library",
             Family::Magnitude { .. } => "huge_literals",
+            Family::Rejected { kind: 0, .. } => "rejected_group_numbering",
+            Family::Rejected { kind: 1, .. } => "rejected_duplicate_binding",
+            Family::Rejected { kind: 2, .. } => "rejected_parse_error",
+            Family::Rejected { .. } => "rejected_validation_error",
             Family::Shapes { shape: 0, .. } => "array_nesting",
             Family::Shapes { shape: 1, .. } => "long_identifiers",
             Family::Shapes { shape: 2, .. } => "many_vertex_attributes",
@@ -131,7 +140,7 @@ impl Family {
             Family::Wide { entries, globals, .. } => (*entries).min(*globals),
             Family::KernelLib { n } => *n,
             Family::Magnitude { bindings, .. } => 8 + *bindings,
-            Family::Shapes { n, .. } => *n,
+            Family::Shapes { n, .. } | Family::Rejected { n, .. } => *n,
         }
     }
 
@@ -144,7 +153,7 @@ impl Family {
             | Family::Decls { depth, .. }
             | Family::GlobalsGraph { depth, .. }
             | Family::Types { depth, .. } => *depth = d,
-            Family::KernelLib { n } | Family::Shapes { n, .. } => *n = d,
+            Family::KernelLib { n } | Family::Shapes { n, .. } | Family::Rejected { n, .. } => *n = d,
             _ => {}
         }
         f
@@ -481,6 +490,45 @@ pub fn source(family: &Family) -> String {
                 out,
                 "@fragment\nfn fs_main() -> @location(0) vec4<f32> {{\n    return vec4<f32>(dm{depth}(2.0));\n}}"
             );
+        }
+        Family::Rejected { kind, n } => {
+            let n = (*n).max(2);
+            let first_group = if *kind == 0 { 1 } else { 0 };
+            for i in 0..n {
+                let _ = writeln!(
+                    out,
+                    "@group({}) @binding({}) var<storage, read> rj{i}: array<vec4<f32>>;",
+                    first_group + i / 128,
+                    i % 128
+                );
+            }
+            if *kind == 1 {
+                let _ = writeln!(
+                    out,
+                    "@group({}) @binding({}) var<storage, read> rj_dup: array<vec4<f32>>;",
+                    (n - 1) / 128,
+                    (n - 1) % 128
+                );
+            }
+            for i in 0..n {
+                let _ = writeln!(out, "fn rjf{i}(x: f32) -> f32 {{\n    return x + rj{i}[0].x;\n}}");
+            }
+            let _ = writeln!(out, "@compute @workgroup_size(1)\nfn cs_main() {{\n    var t = 0.0;");
+            for i in 0..n {
+                let _ = writeln!(out, "    t = t + rjf{i}(t);");
+            }
+            match kind % 4 {
+                2 => {
+                    let _ = writeln!(out, "    let broken = ;\n}}");
+                }
+                3 => {
+                    // accepted by the front end, rejected by validation only (missing return)
+                    let _ = writeln!(out, "}}\nfn rj_no_return() -> f32 {{ }}");
+                }
+                _ => {
+                    let _ = writeln!(out, "}}");
+                }
+            }
         }
         Family::Shapes { shape, n } => {
             let n = (*n).max(1);
@@ -929,6 +977,11 @@ pub fn systematic_families() -> Vec<Family> {
     for (bindings, seed) in [(1, 1), (4, 2), (16, 3), (64, 4)] {
         v.push(Family::Magnitude { bindings, seed });
     }
+    for kind in 0..4u8 {
+        for n in [4, 60, 400] {
+            v.push(Family::Rejected { kind, n });
+        }
+    }
     for (shape, sizes) in [
         (0u8, &[4u32, 12, 24][..]),
         (1, &[64, 1000, 4000]),
@@ -985,6 +1038,10 @@ pub fn random_family(rng: &mut Rng) -> Family {
                 n: rng.range(1, max) as u32,
             }
         }
+        4 if rng.chance(300) => Family::Rejected {
+            kind: rng.below(4) as u8,
+            n: rng.range(2, 400) as u32,
+        },
         4 if rng.chance(300) => Family::Magnitude {
             bindings: rng.range(1, 64) as u32,
             seed: rng.below(1 << 30),
